@@ -6,7 +6,7 @@ from props import dtfam
 
 ID = 'C09'
 PROPS_MODULE = 'Props.C09'
-THEOREMS = ['C09_smag_dx', 'C09_smag_dy', 'C09_smag3_dx', 'C09_finite', 'C09_zero_image', 'C09_avgpool_adjoint']
+THEOREMS = ['C09_smag_dx', 'C09_smag_dy', 'C09_smag3_dx', 'C09_finite', 'C09_zero_image', 'C09_avgpool_adjoint', 'C09_scat_j1_vjp', 'C09_cot_plane']
 VO = ['theories/Props/C09.vo', 'theories/Props/C06.vo', 'theories/Run/RunScat.vo']
 RULE = ('correspondence A: the hand-written backward passes of ScatLayerj1_f / ScatLayerj1_rot_f / ScatLayerj2_f / ScatLayerj2_rot_f (through torch.autograd.grad) and SmoothMagFn '
         '(value and both partials) vs the PrimFloat backward model (phase factors re/r, im/r, cotangent slicing, 1/4 upsampling, inverse stages with the a<->b exchange), '
@@ -15,7 +15,7 @@ RULE = ('correspondence A: the hand-written backward passes of ScatLayerj1_f / S
 TRUSTED = TRUSTED_COMMON + ['PrimFloat primitives for the float instance of the model', 'real-number axioms + classical logic via Coquelicot (see Print Assumptions)',
                             'the multivariate chain rule (that reverse-mode composition of the stage derivatives is the gradient of the composite) is taken as standard mathematics, not re-proved']
 ASSUMES = ['theorems: the saved factors are the partial derivatives of the smooth magnitude and are bounded by 1 for every input when the bias is non-zero (0 at the zero image); the pooling stage adjoint; '
-           'linear stages are adjoint by C06. PARTIAL: the composition step (chain rule) is trusted; the composed backward is tied to the code by float correspondence and checked against finite differences']
+           'the WHOLE backward pass of the first-order layer (greyscale, plain family) is the adjoint of the phase-weighted linearisation of the forward pass for every input, direction and cotangent (C09_scat_j1_vjp, from the level-1 DTCWT adjoint C06_level1_adjoint and the pooling adjoint). PARTIAL: that this linearisation is the derivative (chain rule) is the standard step not re-proved; colour / band-pass / second-order variants are tied to the code by float correspondence and checked against finite differences']
 
 
 def corr_jobs(tier, rng):
